@@ -1,0 +1,18 @@
+//go:build verif
+
+// Contracts for package profile, checked by /verif/govc (comment-only; compiled only with -tags verif).
+package profile
+
+//@ prelude c07
+
+//@ func Genvar(hint string) string
+//@   ensures [C07:gen-prefix] hasPrefix(result, "gen_" + hint + "_")
+
+//@ func (g *VarGenerator) GenExpressionVar(quantification Quantification, cardinality *VariableCardinality) Variable
+//@   requires g != nil
+//@   ensures [C07:name-from-list-or-fallback] (old(deref(g).counter) >= 0 && old(deref(g).counter) < len(old(deref(g).vars)) ==> result.Name == old(deref(g).vars)[old(deref(g).counter)]) && (old(deref(g).counter) >= len(old(deref(g).vars)) ==> result.Name == "X" + itoa(old(deref(g).counter)))
+//@   ensures [C07:counter-advances] deref(g).counter == old(deref(g).counter) + 1 && deref(g).vars == old(deref(g).vars)
+//@   ensures [C07:fields] result.Quantification == quantification && result.Cardinality == cardinality
+
+//@ func NewVarGenerator() VarGenerator
+//@   ensures [C07:starts-at-zero] result.counter == 0 && len(result.vars) >= 1
